@@ -1,10 +1,15 @@
 package types
 
 import (
+	"math"
 	"time"
 
 	sdk "github.com/cosmos/cosmos-sdk/types"
 )
+
+// MaxDurationSeconds is the longest duration, in seconds, that time.Duration can hold.
+// Longer stream durations cannot be added to a deposit zero time without wrapping.
+const MaxDurationSeconds = int64(math.MaxInt64 / int64(time.Second))
 
 func PeriodEnumFromString(period string) StreamPeriod {
 	switch period {
@@ -80,7 +85,12 @@ func CalculateDuration(deposit sdk.Coin, flowRate int64) int64 {
 		decDeposit := sdk.NewDecCoinFromCoin(deposit)
 		decDuration := decDeposit.Amount.QuoTruncateMut(decFlowRate)
 		// note: decimal values are rounded down, e.g. 2628008.9 to just 2628008.
-		return decDuration.TruncateInt64()
+		duration := decDuration.TruncateInt()
+		if !duration.IsInt64() {
+			// saturate instead of panicking; callers reject durations above MaxDurationSeconds
+			return math.MaxInt64
+		}
+		return duration.Int64()
 	}
 
 	return 0
